@@ -122,12 +122,13 @@ def C06(t0):
     _warm()
     jobs = [('ark constructors', group.check_constructors, ()), ('ark decode funnel', wiring.check_decode_funnel, ('ark',)), ('ark curve constants', consts.check_curve_constants, ('ark',)),
             ('ark group order', consts.check_group_order, ('ark',)), ('ark decode algebra (on-curve of decoded points)', curve.check_decode_algebra, ('ark',)),
-            ('min decode algebra', curve.check_decode_algebra, ('min',)), ('min curve constants', consts.check_curve_constants, ('min',))] + S_ZERO()
+            ('min decode algebra', curve.check_decode_algebra, ('min',)), ('min curve constants', consts.check_curve_constants, ('min',)),
+            ('ark batch normalisation (coordinate level)', curve.check_batch_poly, ())] + S_ZERO()
     obs = par.run_groups(jobs)
     return finish('C06', obs, t0, level='proof',
         functions=['AffineRepr::{zero, generator, from_random_bytes, clear_cofactor, mul_by_cofactor_to_group}', 'Group::generator', 'Default for Element/AffinePoint', 'Distribution<Element|AffinePoint>::sample',
                    'CurveGroup::{normalize_batch, into_affine}', 'ScalarMul::batch_convert_to_mul_base', 'all deserialisers (decode funnel)', 'Element::{GENERATOR, IDENTITY}'],
-        bounds=['from_random_bytes: slice lengths 0..=80, bytes symbolic', 'samplers: rejection loop unrolled up to 2 rejections (the loop body is uniform)', 'batch conversions of 0, 1, 3 elements'],
+        bounds=['from_random_bytes: slice lengths 0..=80, bytes symbolic', 'samplers: rejection loop unrolled up to 2 rejections (the loop body is uniform)', 'batch conversions of 0, 1, 3 elements (provenance) and 0..=3 (4 thorough) symbolic valid elements at coordinate level, every zero-test path'],
         trusted=[T_RUSTC, T_ARK, 'validity is preserved by the group law, negation, scalar action and affine/projective conversion; the image of Elligator lies in the group; decoded points are valid (on-curve part decided by certificate in C02)',
                  'the Decaf theorem that on-curve points produced by decode are in the image 2E'],
         assumptions=['"valid" is tracked as provenance: a result is valid iff every curve point it contains was produced by decode, a checked constant, Elligator or operations on valid points; arkworks raw-point constructors (from_random_bytes, UniformRand) are the only invalid sources'])
@@ -196,10 +197,13 @@ def C10(t0):
     _warm()
     obs = par.run_groups(fields.jobs_C10())
     return finish('C10', obs, t0, level='proof',
-        functions=['every Add/Sub/Mul/Div/Neg/*Assign impl of fields/{fq,fr,fp}/ops.rs (both builds)', 'Sum/Product impls', 'Field::{double, double_in_place, neg_in_place, square, square_in_place, inverse, inverse_in_place, from_base_prime_field, frobenius_map_in_place}, Zero/One', 'Fq::power'],
-        bounds=['operands symbolic (no bound); iterator sums/products over 0..=3 elements (5 in thorough); power: exponent slices of 0..=3 (5) symbolic 64-bit limbs'],
-        trusted=[T_RUSTC, T_ARK + ': ark-ff Montgomery arithmetic behind the u64 wrappers', 'contracts K (fiat kernels) and W (wrappers): field wrapper add/sub/mul/neg/square/inverse denote the field operations on values'],
-        assumptions=['field elements as polynomials over F_p; inverse as a fresh symbol with x*inv = 1'])
+        functions=['every Add/Sub/Mul/Div/Neg/*Assign impl of fields/{fq,fr,fp}/ops.rs (both builds)', 'Sum/Product impls', 'Field::{double, double_in_place, neg_in_place, square, square_in_place, inverse, inverse_in_place, from_base_prime_field, frobenius_map_in_place}, Zero/One', 'Fq::power',
+                   'fields/{fq,fr,fp}/u32/fiat.rs: {add, sub, opp, mul, square, from_montgomery, to_montgomery} (source parsed, integer-exact), {addcarryx, subborrowx, mulx, cmovznz}_u32, nonzero, selectznz, to_bytes, from_bytes, set_one, msat (MIR, bit-vectors)',
+                   'fields/{fq,fr,fp}/u32/wrapper.rs: which kernel each arithmetic method calls, limb/byte packing, conditional_select, ct_eq'],
+        bounds=['operands symbolic (no bound); iterator sums/products over 0..=3 elements (5 in thorough); power: exponent slices of 0..=3 (5) symbolic 64-bit limbs',
+                'fiat kernels: all operands below p (to_montgomery: all 32n-bit inputs); straight-line code, no unrolling bound; per-query solver cap 150 s x2 seeds (quick) / 1200 s x3 (thorough)'],
+        trusted=[T_RUSTC, T_ARK + ': ark-ff Montgomery arithmetic behind the u64 wrappers', 'contract W for inversion on the 32-bit backend (fiat divstep iteration): not decided, outside the claim'],
+        assumptions=['field elements as polynomials over F_p; inverse as a fresh symbol with x*inv = 1', 'fiat kernels: products of two symbolic 32-bit words are fresh integer atoms (over-approximation), quotient digits read off the code as a hint (untrusted: only used inside the proved equation)'])
 
 def C11(t0):
     from . import fields
@@ -208,7 +212,7 @@ def C11(t0):
     return finish('C11', obs, t0, level='proof',
         functions=['from_le_bytes_mod_order / from_be_bytes_mod_order (inherent and PrimeField)', 'PrimeField::{from_bigint, into_bigint}', 'CanonicalSerializeWithFlags / CanonicalDeserializeWithFlags (EmptyFlags, TEFlags, SWFlags)'],
         bounds=['byte strings of every length 0..=200 (bytes symbolic); all limb / byte values symbolic'],
-        trusted=[T_RUSTC, T_ARK, 'W contracts: from_raw_bytes / from_le_limbs denote int mod p, to_bytes_le / to_le_limbs are the canonical digits; FIELD_SIZE_POWER_OF_TWO = 2^(8N) mod p is C17'],
+        trusted=[T_RUSTC, T_ARK, 'FIELD_SIZE_POWER_OF_TWO = 2^(8N) mod p is C17; the 32-bit conversions rest on the fiat kernels to_montgomery (decided for unreduced inputs) / from_montgomery / to_bytes / from_bytes, which this check decides (dv/fiat.py)'],
         assumptions=['flag types modelled by their documented bit layout'])
 
 def C16(t0):
